@@ -102,6 +102,51 @@ theorem view_updIno_of_ne_ino {fs : Fs} {i : Nat} {f : Inode → Inode} {q : Pat
     have := h j nd hv
     simp [this]
 
+theorem parentErr_none_iff {fs : Fs} {n : Name} {q : Path} :
+    fs.parentErr (n :: q) = none ↔ ∃ i nd, fs.view q = some (i, nd) ∧ nd.kind = .dir := by
+  unfold Fs.parentErr
+  cases hv : fs.view q with
+  | none =>
+    simp only
+    constructor
+    · intro h
+      split at h
+      · cases h
+      · split at h <;> cases h
+    · rintro ⟨i, nd, h, _⟩; cases h
+  | some v =>
+    obtain ⟨i, nd⟩ := v
+    simp only
+    constructor
+    · intro h
+      split at h
+      · next hk => exact ⟨i, nd, rfl, hk⟩
+      · cases h
+    · rintro ⟨i', nd', h, hk⟩
+      cases h
+      rw [if_pos hk]
+
+theorem parentErr_ne_EEXIST (fs : Fs) (p : Path) : fs.parentErr p ≠ some .EEXIST := by
+  cases p with
+  | nil => simp [Fs.parentErr]
+  | cons n q =>
+    unfold Fs.parentErr
+    split
+    · split <;> simp
+    · split
+      · simp
+      · split <;> simp
+
+/-- the parent check only looks at the parent -/
+theorem parentErr_none_congr {fs fs' : Fs} {p : Path} (h : fs'.view p.tail = fs.view p.tail)
+    (hp : fs.parentErr p = none) : fs'.parentErr p = none := by
+  cases p with
+  | nil => simp [Fs.parentErr] at hp
+  | cons n q =>
+    rw [parentErr_none_iff] at hp ⊢
+    simp only [List.tail_cons] at h
+    rw [h]; exact hp
+
 theorem map_upd_next {fs : Fs} (hwf : fs.WF1) (f : Inode → Inode) (q : Path) :
     (fs.view q).map (fun v => if v.1 = fs.next then (v.1, f v.2) else v) = fs.view q := by
   cases hv : fs.view q with
@@ -348,12 +393,6 @@ theorem sysAll_append_ok {env : Env} {a b : List Op} {s s' : St}
     refine ⟨s2, ?_, h4⟩
     unfold St.sysAll
     rw [h1]; exact h3
-
-theorem parentErr_eq_of_offEq {base f : Fs} {fp p : Path} (h : OffEq base fp f) (hp : p.tail ≠ fp) (hne : p ≠ []) :
-    f.parentErr p = base.parentErr p := by
-  cases p with
-  | nil => exact absurd rfl hne
-  | cons n q => simp only [Fs.parentErr, h q (by simpa using hp)]
 
 /-- `createOps ++ permsOps` at a free location `fp`: the object is built on a new inode, nothing else moves -/
 theorem build_ok {env : Env} {s s' : St} {e : Entry} {fp : Path}
@@ -1081,7 +1120,7 @@ theorem parentErr_none_ne_nil {fs : Fs} {p : Path} (h : fs.parentErr p = none) :
   intro e; subst e; simp [Fs.parentErr] at h
 
 theorem doLink_ok {env : Env} {s s' : St} {src trg : Path} {i : Nat} {nd : Inode}
-    (hsrc : s.fs.view src = some (i, nd)) (hst : src ≠ trg) (hstmp : src ≠ tmpOf trg)
+    (hsrc : s.fs.view src = some (i, nd)) (_hst : src ≠ trg) (hstmp : src ≠ tmpOf trg)
     (hino : ∀ j nd', s.fs.view trg = some (j, nd') → j ≠ i)
     (h : doLink env s src trg = (s', .ok ())) :
     LinkPost s s' trg i nd ∧ Traj env (LinkP s.fs trg i nd) s s' := by
@@ -1128,12 +1167,7 @@ theorem doLink_ok {env : Env} {s s' : St} {src trg : Path} {i : Nat} {nd : Inode
     · cases e1
     · next hknd =>
       split at e1
-      · next e' hpe => injection e1 with e1; subst e1; exact absurd hpe (by
-          intro hp; simp only [Fs.parentErr] at hp; split at hp
-          · cases hp
-          · split at hp
-            · cases hp
-            · split at hp <;> cases hp)
+      · next e' hpe => injection e1 with e1; subst e1; exact absurd hpe (parentErr_ne_EEXIST _ _)
       · next hpe =>
         split at e1
         · next hvt =>
@@ -1183,17 +1217,15 @@ theorem doLink_ok {env : Env} {s s' : St} {src trg : Path} {i : Nat} {nd : Inode
                   subst h
                   have f4 := (St.sys_ok hsys3).1
                   have hparent3 : s3.fs.parentErr trg = none := by
-                    cases htr : trg with
-                    | nil => exact absurd htr hloc
-                    | cons n b =>
-                      have hb : b ≠ tmpOf trg := by
-                        intro hb
-                        have := congrArg List.length hb
-                        rw [tmpOf_length, htr] at this
-                        simp at this
-                      rw [htr] at hpe
-                      simp only [Fs.parentErr, hv3 b, if_neg hb] at hpe ⊢
-                      exact hpe
+                    refine parentErr_none_congr ?_ hpe
+                    have hb : trg.tail ≠ tmpOf trg := by
+                      intro hb
+                      have := congrArg List.length hb
+                      rw [tmpOf_length] at this
+                      cases htr : trg with
+                      | nil => exact absurd htr hloc
+                      | cons n b => rw [htr] at this; simp at this
+                    rw [hv3, if_neg hb]
                   simp only [step, hv3 (tmpOf trg), if_true, hparent3, if_neg hknd, hv3 trg, if_neg (Ne.symm hne), hv0,
                     if_neg (hino i0 nd0 hv0)] at f4
                   split at f4
@@ -1440,12 +1472,7 @@ theorem mergeDir_ok {env : Env} {s s' : St} {x : Entry} (hd : x.isDir = true) (h
           injection e1 with e1; subst e1
           split at hpe
           · cases hpe
-          · exact absurd hpe (by
-              intro hp; simp only [Fs.parentErr] at hp; split at hp
-              · cases hp
-              · split at hp
-                · cases hp
-                · split at hp <;> cases hp)
+          · exact absurd hpe (parentErr_ne_EEXIST _ _)
         · next hpe =>
           split at e1
           · next hvx =>
@@ -1468,16 +1495,14 @@ theorem mergeDir_ok {env : Env} {s s' : St} {x : Entry} (hd : x.isDir = true) (h
               · rfl
               · next hne =>
                 rw [if_neg hne] at hpe
-                cases hxl : x.loc with
-                | nil => exact absurd hxl hne
-                | cons n b =>
-                  have hb : b ≠ x.loc := by
-                    intro hb
-                    have := congrArg List.length hb
-                    rw [hxl] at this; simp at this
-                  rw [hxl] at hpe hb
-                  simp only [Fs.parentErr, hv2 b, hxl, if_neg hb] at hpe ⊢
-                  exact hpe
+                refine parentErr_none_congr ?_ hpe
+                have hb : x.loc.tail ≠ x.loc := by
+                  intro hb
+                  have := congrArg List.length hb
+                  cases hxl : x.loc with
+                  | nil => exact absurd hxl hne
+                  | cons n b => rw [hxl] at this; simp at this
+                rw [hv2, if_neg hb]
             have f3 := (St.sys_ok h3).1
             simp only [step, hpe2, hv2 x.loc, if_true] at f3
             have wf2 : s2.fs.WF := by rw [← f2]; exact WF_del hwf _
